@@ -106,12 +106,17 @@ def scenarios(ctx):
         for pname, prog in progs:
             if quick and pname == "pos" and cap in (2, 0):
                 continue
-            b = [{"f": 1}, {"r": 1}] if quick else [{"f": 1, "r": 1}, {"f": 2}, {"p": 1}]
+            if quick:
+                b = [{"f": 1}, {"r": 1}]
+            elif cap == 3 and pname == "get":
+                b = [{"f": 1, "r": 1}, {"p": 1}]
+            else:
+                b = [{"f": 1}, {"r": 1}, {"p": 1}]
             out.append((f"G/{name}/{pname}", dict(base, program=prog), b))
         # seek injected at every choice point between assignment and first delivery
-        targets = [3] if quick else [3, 2, 6]
         if quick and (cap in (2, 0) or cname in ("marker", "end", "unstable")):
             continue
+        targets = [3] if (quick or cap != 3) else [3, 2, 6]
         for o in targets:
             for basel in ("net", "app"):
                 if quick and basel == "app" and cname not in ("absent", "beyond"):
@@ -119,10 +124,10 @@ def scenarios(ctx):
                 for pname, prog in progs:
                     if pname == "pos" and (quick or o != 3):
                         continue
-                    if quick:
-                        b = [{"r": 1}, {"p": 1}]
-                    else:
-                        b = [{"r": 1, "f": 1}, {"p": 1, "f": 1}, {"r": 1, "p": 1}]
+                    b = [{"r": 1}, {"p": 1}]
+                    if (not quick and cap == 3 and group and o == 3 and basel == "net" and pname == "get"
+                            and cname in ("absent", "inside", "beyond")):
+                        b = [{"r": 1, "f": 1}, {"p": 1, "f": 1}]  # a fault on the lookup and the seek in the same run
                     out.append((f"S/{name}/{basel}/seek{o}/{pname}", dict(base, program=prog, baseline=basel, inject_seek=[0, o]), b))
     return out
 
